@@ -9,6 +9,6 @@ PROPS_V = "theories/Props/C11.v"
 
 def run(ctx):
     common.app_check(ctx, "C11", PROPS_V if os.path.exists(os.path.join(V.COQ, PROPS_V)) else None, THEOREMS,
-                     codes=[2, 3, 7], pred="P_C11", profile="corpus noise restart judge", known_classes=(1,),
+                     codes=[2, 3, 7], pred="P_C11_full", profile="corpus noise restart judge", known_classes=(1,),
                      extra_assume=["unique placement needs unique stake hashes: transaction hashes are unique, but every genesis stake carries hash 0 — two of them unbonding at once collide (known finding, C11_collision_refuted)"],
                      nontrivial_rule="every history is executed again on a node under mempool traffic and the predicate is judged on what THAT node answered as well; the predicate checks after every block: totals = sums, self power = sum of own stakes, every stake recorded once (by hash and owner), and continuity: every stake of the previous block is still recorded with the same owner/target/start, or was refunded when matured, or belonged to a delegatee named in the block's evidence")
